@@ -4,6 +4,8 @@
 package enum
 
 import (
+	"encoding/base64"
+	"encoding/hex"
 	"go/ast"
 	"go/parser"
 	"go/token"
@@ -149,6 +151,15 @@ func CorpusFromTests(dir string) [][]byte {
 				if v.Kind == token.STRING {
 					if s, err := strconv.Unquote(v.Value); err == nil && len(s) >= 4 {
 						add([]byte(s))
+						// test vectors are often written down base64- or hex-encoded
+						if len(s) >= 16 {
+							if b, err := base64.StdEncoding.DecodeString(s); err == nil {
+								add(b)
+							}
+							if b, err := hex.DecodeString(s); err == nil {
+								add(b)
+							}
+						}
 					}
 				}
 			}
